@@ -47,4 +47,10 @@ Items == {
   [t |-> "for", ty |-> "int", x |-> "j", hdr |-> [t |-> "vals", br |-> "none", xs |-> <<I(1), I(4)>>],
      body |-> <<Stmt("Lk", TRUE, <<>>, <<Kw("a", LstE(<<Var("j"), I(0)>>)), Kw("b", LstE(<<I(9), Var("j")>>))>>, <<Var("j")>>, "none")>>]
 }
+\* an indexed array declared again under the same name (other contents, other size), reads and index arithmetic before and after
+Redecl == { [t |-> "arr", ty |-> "int", x |-> "A", shape |-> <<>>, rows |-> << <<I(1), I(2)>>, <<I(3), I(0)>> >>],
+            [t |-> "arr", ty |-> "int", x |-> "A", shape |-> <<>>, rows |-> << <<I(4), I(3), I(2), I(1), I(0)>> >>],
+            Stmt("R", TRUE, <<[t |-> "idx", x |-> "A", e |-> I(1)]>>, <<>>, <<[t |-> "idx", x |-> "A", e |-> I(3)]>>, "none"),
+            [t |-> "for", ty |-> "int", x |-> "i", hdr |-> [t |-> "range", a |-> 0, b |-> 2, c |-> 0, hasc |-> FALSE],
+               body |-> <<Stmt("L", TRUE, <<[t |-> "idx", x |-> "A", e |-> Var("i")]>>, <<>>, <<Var("i")>>, "none")>>] }
 =============================================================================
